@@ -116,7 +116,7 @@ PROPERTIES.update({
         ],
     },
     "C04": {
-        "verus": ["C02_members"],
+        "verus": ["C02_members", "C04_bounds"],
         "kani_quick": ["k_c04_add_assign"],
         "kani_thorough": [],
         "bounded_native": [
